@@ -187,6 +187,7 @@ func dumpGeometry(f b6.Feature) string {
 	case b6.FeatureTypeCollection:
 		if c, ok := f.(b6.CollectionFeature); ok {
 			b.WriteString("collection=")
+			var keys []any
 			it := c.BeginUntyped()
 			for n := 0; n < 64; n++ {
 				ok, err := it.Next()
@@ -198,6 +199,12 @@ func dumpGeometry(f b6.Feature) string {
 					break
 				}
 				fmt.Fprintf(&b, "%v=%v ", it.Key(), it.Value())
+				keys = append(keys, it.Key())
+			}
+			// lookups by key: every key the collection iterates over must be found
+			for _, k := range keys {
+				v, ok := c.FindValue(k)
+				fmt.Fprintf(&b, "find(%v)=%v,%v ", k, v, ok)
 			}
 		} else {
 			fmt.Fprintf(&b, "NOT-COLLECTION(%T)", f)
